@@ -169,6 +169,13 @@ func gateCatalogue() []gateCall {
 			err := nd.api.Import(ctxBG, &pilosa.ImportRequest{Index: "zz", Field: "f", Shard: sh, RowIDs: []uint64{e.row}, ColumnIDs: []uint64{e.col}})
 			return err, e
 		}},
+		{"Import(keys)", gkNormal, func(g *gateState, nd *simNode, u int) (error, *gateEffect) {
+			// a keyed index and field: the keys must not be translated (written to the key
+			// store) for a request that is going to be refused
+			err := nd.api.Import(ctxBG, &pilosa.ImportRequest{Index: "zk", Field: "kf", Shard: 0,
+				RowKeys: []string{fmt.Sprintf("row-%d", u)}, ColumnKeys: []string{fmt.Sprintf("col-%d", u)}})
+			return err, nil
+		}},
 		{"ImportValue", gkNormal, func(g *gateState, nd *simNode, u int) (error, *gateEffect) {
 			sh := own(nd, "zz")
 			e := &gateEffect{kind: "val", col: sh*pilosa.ShardWidth + uint64(u)}
@@ -444,6 +451,14 @@ func c23Extra(d *db, op simrt.Op) bool {
 		}
 		if _, err := coord.api.CreateField(ctxBG, "zz", "v", pilosa.OptFieldTypeInt(0, 1000)); err != nil {
 			d.fail("schema-error", "create zz/v: %v", err)
+			return true
+		}
+		if _, err := coord.api.CreateIndex(ctxBG, "zk", pilosa.IndexOptions{Keys: true}); err != nil {
+			d.fail("schema-error", "create zk: %v", err)
+			return true
+		}
+		if _, err := coord.api.CreateField(ctxBG, "zk", "kf", pilosa.OptFieldTypeSet(pilosa.CacheTypeRanked, 100), pilosa.OptFieldKeys()); err != nil {
+			d.fail("schema-error", "create zk/kf: %v", err)
 			return true
 		}
 		for s := uint64(0); s < 4; s++ {
